@@ -380,9 +380,9 @@ def chunk(tier: str, i: int, nchunks: int) -> Dict[str, Any]:
 
 SIZES = {
     "quick": {"sort": [1, 2, 3, 4, 5], "subsets": [1, 2, 3, 4, 5], "fc_asc": [1, 2, 3, 4], "fc_desc": [1, 2, 3, 4]},
-    "thorough": {"sort": [1, 2, 3, 4, 5, 6, 7], "subsets": [1, 2, 3, 4, 5, 6, 7], "fc_asc": [1, 2, 3, 4, 5], "fc_desc": [1, 2, 3, 4, 5]},
+    "thorough": {"sort": [1, 2, 3, 4, 5, 6], "subsets": [1, 2, 3, 4, 5, 6, 7], "fc_asc": [1, 2, 3, 4, 5], "fc_desc": [1, 2, 3, 4, 5]},
 }
-TIMEOUT = {"quick": 40, "thorough": 1500}
+TIMEOUT = {"quick": 40, "thorough": 900}
 
 
 def run(tier: str, seed: int) -> Outcome:
